@@ -279,7 +279,7 @@ Definition write_result (l : link) (tx : option N) (d : dest) (f : fcode) (res :
   | Some ex => format_ex l tx d (FException f) ex
   end.
 
-(* Request::get_reply against the handler of unit u in state st *)
+(* Request::get_reply against the handler object with index u, in state st *)
 Definition get_reply (l : link) (tx : option N) (d : dest) (u : N) (st : St) (r : request)
   : outcome serr (list N) * St * list event :=
   let f := get_function r in
@@ -334,15 +334,17 @@ Definition execute (u : N) (st : St) (r : request) : outcome serr (St * list eve
   | _ => Ok (st, [])       (* not a BroadcastRequest: filtered out by into_broadcast_request before *)
   end.
 
-(* `for handler in self.handlers.iter_mut() { request.execute(..) }` in ascending unit id order *)
-Fixpoint execute_all (units : list (N * St)) (r : request) : outcome serr (list (N * St) * list event) :=
-  match units with
-  | [] => Ok ([], [])
-  | (u, st) :: rest =>
-      match execute u st r with
+(* `for handler in self.handlers.iter_mut() { request.execute(..) }`: BTreeMap::values_mut visits the
+   map ENTRIES in ascending unit id order, so a handler object shared by k unit ids is executed k
+   times, each time on the state the previous execution left *)
+Fixpoint execute_all (m : list (N * N)) (g : N -> St) (r : request) : outcome serr ((N -> St) * list event) :=
+  match m with
+  | [] => Ok (g, [])
+  | (_, h) :: rest =>
+      match execute h (g h) r with
       | Ok (st', ev) =>
-          match execute_all rest r with
-          | Ok (rest', ev') => Ok ((u, st') :: rest', ev ++ ev')
+          match execute_all rest (sset g h st') r with
+          | Ok (g', ev') => Ok (g', ev ++ ev')
           | Err e => Err e | Panic => Panic
           end
       | Err e => Err e | Panic => Panic
@@ -389,16 +391,16 @@ Definition reply_with_error_generic (l : link) (fr : frame) (f : ffield) (ex : N
 
 (* SessionTask::is_served: the frame is addressed to a unit id in the handler map (or is a broadcast,
    which is never answered anyway) *)
-Definition is_served (units : list (N * St)) (d : dest) : bool :=
+Definition is_served (us : ucfg St) (d : dest) : bool :=
   match d with
-  | DUnit u => match lookup u units with Some _ => true | None => false end
+  | DUnit u => match lookup u (u_map us) with Some _ => true | None => false end
   | DBroadcast => true
   end.
 
 (* result: bytes written (nil = nothing written) or the error that ends the session, the unit
    states afterwards, the application calls made *)
-Definition handle_frame (l : link) (a : auth) (units : list (N * St)) (fr : frame)
-  : outcome serr (list N) * list (N * St) * list event :=
+Definition handle_frame (l : link) (a : auth) (units : ucfg St) (fr : frame)
+  : outcome serr (list N) * ucfg St * list event :=
   match f_pdu fr with
   | [] => (Ok [], units, [])                                        (* "received an empty frame" *)
   | fv :: body =>
@@ -420,16 +422,16 @@ Definition handle_frame (l : link) (a : auth) (units : list (N * St)) (fr : fram
               | Ok (true, alog) =>
                   match f_dest fr with
                   | DUnit u =>
-                      match lookup u units with
+                      match lookup u (u_map units) with
                       | None => (Ok [], units, alog)                 (* unmapped unit id *)
-                      | Some st =>
-                          let '(o, st', log) := get_reply l (f_tx fr) (f_dest fr) u st req in
-                          (o, update u st' units, alog ++ log)
+                      | Some h =>
+                          let '(o, st', log) := get_reply l (f_tx fr) (f_dest fr) h (u_store units h) req in
+                          (o, with_store units (sset (u_store units) h st'), alog ++ log)
                       end
                   | DBroadcast =>
                       if broadcast_supported (get_function req) then
-                        match execute_all units req with
-                        | Ok (units', log) => (Ok [], units', alog ++ log)
+                        match execute_all (u_map units) (u_store units) req with
+                        | Ok (g', log) => (Ok [], with_store units g', alog ++ log)
                         | Err e => (Err e, units, alog)
                         | Panic => (Panic, units, alog)
                         end
@@ -445,8 +447,8 @@ Inductive session_end := SOpen | SError (e : serr) | SPanic.
 
 (* one entry of `replies` per frame handled (nil = nothing written); the loop ends with the first
    error, whose frame wrote nothing *)
-Fixpoint session (l : link) (a : auth) (units : list (N * St)) (frames : list frame)
-  : list (list N) * list (N * St) * list event * session_end :=
+Fixpoint session (l : link) (a : auth) (units : ucfg St) (frames : list frame)
+  : list (list N) * ucfg St * list event * session_end :=
   match frames with
   | [] => ([], units, [], SOpen)
   | fr :: rest =>
